@@ -78,6 +78,8 @@ def _candidates(fn, spec):
         elif kind == "nth":
             if isinstance(n, ast.Assign) and len(n.targets) == 1 and isinstance(n.targets[0], ast.Name) and rx.search(ast.unparse(n.value)):
                 found.append((n.lineno, n.col_offset, n.targets[0].id))
+            elif isinstance(n, ast.AnnAssign) and isinstance(n.target, ast.Name) and n.value is not None and rx.search(ast.unparse(n.value)):
+                found.append((n.lineno, n.col_offset, n.target.id))
         elif kind == "value_of":
             # the local that is stored under a matching target:  slab_dict["frac_pos"] = pos
             if isinstance(n, ast.Assign) and isinstance(n.value, ast.Name) and any(rx.search(ast.unparse(t)) for t in n.targets):
